@@ -423,6 +423,13 @@ def _with_params(draw, tree):
         if draw(st.integers(0, 2)) == 0:
             q.append({n: draw(st.sampled_from(["en", "x y", "a;b", "v1"])) for n in draw(_pnames)})
         ps.append(q)
+    if draw(st.integers(0, 3)) == 0:
+        # distinct RFC names that a normalising sort key could tie or reorder: hyphens, digits, common prefixes, vendor ids
+        have = {p_[0].upper() for p_ in ps}
+        for nm in draw(st.sampled_from([["X-AB", "X-A-B", "XAB"], ["X-N1", "X-N10", "X-N2"], ["X-ABC-FOO", "X-FOO", "X-XYZ-FOO"], ["X-A", "X-A-", "X-A--B"],
+                                        ["X-0", "X-00", "X-9"], ["X-ITEM1-LABEL", "X-ITEM2-LABEL", "X-LABEL"]])):
+            if nm.upper() not in have:
+                ps.append([nm, {"k": "text", "v": "tie " + nm.lower()}])
     t["p"] = ps
     t["s"] = [draw(_with_params(s)) for s in tree["s"]]
     return t
